@@ -345,7 +345,7 @@ func c06Cases(thorough bool) []c06Case {
 			if lacksQ == 0 {
 				continue
 			}
-			if !thorough && (lacksR > 1 || (n >= 4 && lacksR > 0 && sp[n-1]&2 != 0 && sh.Name != "fan4") || (sh.Name == "fan4" && lacksQ < 3)) {
+			if !thorough && ((lacksR > 1 && n > 3) || lacksR > 2 || (n >= 4 && lacksR > 0 && sp[n-1]&2 != 0 && sh.Name != "fan4") || (sh.Name == "fan4" && lacksQ < 3)) {
 				continue
 			}
 			splits = append(splits, sp)
